@@ -74,7 +74,7 @@ func wrapClient(r regSpec, conn net.Conn) (net.Conn, error) {
 	return nil, fmt.Errorf("no client")
 }
 
-func runC04(rm *cj.RegistrationManager, anns *[]cj.VerifDetectorMsg, phantom net.IP, me regSpec, early, later []byte, cuts []int, gaps []time.Duration, greeting []byte) c04Result {
+func runC04(rm *cj.RegistrationManager, anns *[]cj.VerifDetectorMsg, phantom net.IP, me regSpec, early, later []byte, cuts []int, gaps []time.Duration, greeting []byte, prior string) c04Result {
 	vrand.Script = func(kind string, n int64) (float64, bool) {
 		if kind == "Int63n" {
 			return 2500, true
@@ -102,6 +102,22 @@ func runC04(rm *cj.RegistrationManager, anns *[]cj.VerifDetectorMsg, phantom net
 	cm := newConnManager(nil)
 	x, _ := vsched.RunOnce(nil, 200000, func() *vsched.Scenario {
 		return &vsched.Scenario{Body: func() {
+			// a station handles many connections with one connection manager: optionally the same manager has
+			// already handled an unauthenticated probe (every transport ruled itself out for that connection)
+			// or a session of another transport before the connection under test arrives
+			switch prior {
+			case "probe":
+				pc := &vconn.Conn{Name: "prior-probe", Local: paddr, Remote: &net.TCPAddr{IP: net.IPv4(198, 51, 100, 9), Port: 40001},
+					In: []vconn.Event{{Data: noise(200, "prior")}, {Err: io.EOF}}}
+				cm.handleNewTCPConn(rm, pc, phantom)
+				pc.Close()
+			case "half-flight":
+				// a client that sends the first 40 bytes of a valid-looking flight and goes away
+				pc := &vconn.Conn{Name: "prior-half", Local: paddr, Remote: &net.TCPAddr{IP: net.IPv4(198, 51, 100, 9), Port: 40002},
+					In: []vconn.Event{{Data: noise(40, "prior-half")}, {Err: io.EOF}}}
+				cm.handleNewTCPConn(rm, pc, phantom)
+				pc.Close()
+			}
 			var wg vsync.WaitGroup
 			wg.Add(2)
 			vsched.GoNamed("client", func() {
@@ -271,13 +287,22 @@ func verifC04(a *vh.Args) {
 					if greeting != nil {
 						id += ";covert-speaks-first"
 					}
+					prior := ""
+					if ci%11 == 1 {
+						prior = "probe"
+					} else if ci%11 == 2 {
+						prior = "half-flight"
+					}
+					if prior != "" {
+						id += ";after=" + prior
+					}
 					if only != "" && id != only {
 						continue // replay: run exactly the recorded case
 					}
 					if !e.Case() {
 						goto done
 					}
-					r := runC04(rm, &anns, phantom, tc.spec, early, later, cuts, gaps, greeting)
+					r := runC04(rm, &anns, phantom, tc.spec, early, later, cuts, gaps, greeting, prior)
 					rep := map[string]any{"case": id}
 					cls := tc.name
 					if len(cls) > 6 && cls[:6] == "prefix" {
